@@ -151,6 +151,11 @@ def lower_shift(node: vy_ast.Call, ctx: VenomCodegenContext) -> IROperand:
     # Generalized right shift: sar for signed, shr for unsigned
     is_signed = val_typ.is_signed
 
+    if not node.args[1]._metadata["type"].is_signed:
+        # an unsigned shift amount is never negative (a uint256 amount
+        # >= 2**255 must not be read as a right shift)
+        return b.shl(bits, val)
+
     # Check if bits < 0 at runtime
     # EVM: slt(bits, 0) returns 1 if bits < 0
     is_negative = b.slt(bits, IRLiteral(0))
